@@ -65,6 +65,8 @@ def run(ctx, rep):
         pass
 
     protocol(ctx, rep, "C08")
+    from rules import C07
+    C07.bytes_to_le_rules(ctx.facts(), rep, "C08")
 
 
 def protocol(ctx, rep, P):
